@@ -62,7 +62,7 @@ CHECKS["C06"] = dict(
          "construction, and fresh interpreters under other hash seeds / allocation patterns (seam-completeness audit).",
     design_ref="DESIGN.md 4/C06",
     note="Order sites are those of the OVLD_VERIF seam (sort_types.avail, TypeMap.__missing__ group/handlers, MultiTypeMap.mro "
-         "candidates); unhooked sites are covered only by the foreign-interpreter audit. Ambiguity errors compared by kind. Sampling.",
+         "candidates, the set of dependent-type kinds in generate_dependent_dispatch); unhooked sites are covered only by the foreign-interpreter audit. Ambiguity errors compared by kind. Sampling.",
     technique="deterministic simulation: seeded search over iteration-order / registration-order / environment configurations with replayable permutation scripts",
 )
 
